@@ -7,6 +7,7 @@
  *   mux <id> <sel> <out> index|running|active <ninputs> [default]
  *   input <mux> <idx> <chan>
  *   track <mode> <sel> <inp>          -> ok <output chan id>
+ *   cputrack <sel> <default|null> <raw chan>...   -> ok <output chan id>
  *   set|push|pop <chan> <value|null>
  *   propagate                         -> ok <chan>=<value>... (emit callbacks, in call order)
  *   read <chan> | state <mux> | dirty
@@ -206,6 +207,29 @@ int main(void)
 			if (mode != TRACK_TH_ANY)
 				muxes[nmuxes++] = &tr->mux;
 			printf("ok %d\n", chan_id(track_get_output(tr)));
+		} else if (strcmp(t[0], "cputrack") == 0 && n >= 3) {
+			/* connect_cpu for one channel: track_init, track_set_select(sel, NULL, n),
+			 * track_set_input(i, raw_i), mux_set_default */
+			int sel, raws[16], nr = n - 3, bad = 0, oob = 0;
+			struct value def;
+			if (atoi_ok(t[1], &sel) != 0 || parse_val(t[2], &def) != 0) bad = 1;
+			for (int i = 0; i < nr && !bad; i++) {
+				if (atoi_ok(t[3 + i], &raws[i]) != 0) bad = 1;
+				else if (raws[i] >= nchans) oob = 1;
+			}
+			if (bad) { printf("bad-op\n"); continue; }
+			if (nr == 0 || sel >= nchans || oob) { printf("err\n"); continue; }
+			struct track *tr = calloc(1, sizeof(*tr));
+			if (track_init(tr, bay, TRACK_TYPE_TH, TRACK_TH_RUN, "cputrack%d", nchans) != 0) { printf("err\n"); continue; }
+			int out = nchans;
+			chans[nchans++] = &tr->ch;
+			int fail = track_set_select(tr, chans[sel], NULL, nr) != 0;
+			for (int i = 0; i < nr && !fail; i++)
+				fail = track_set_input(tr, i, chans[raws[i]]) != 0;
+			if (fail) { printf("err\n"); continue; }
+			mux_set_default(&tr->mux, def);
+			muxes[nmuxes++] = &tr->mux;
+			printf("ok %d\n", out);
 		} else if ((strcmp(t[0], "set") == 0 || strcmp(t[0], "push") == 0 || strcmp(t[0], "pop") == 0) && n == 3) {
 			int c;
 			struct value v;
